@@ -4,3 +4,114 @@
 #![allow(clippy::all, clippy::pedantic)]
 
 // wrappers for the src2 property group
+
+// owner: group a4 (C07 C09 C13 C14 C33 C34). Accessors only; no behaviour.
+use std::collections::HashMap;
+use std::net::{IpAddr, SocketAddr};
+use std::sync::{Arc, Mutex, RwLock};
+
+use crate::cookiestash::CookieStash;
+use crate::identifiers::ReferenceId;
+use crate::keyset::{DecodedServerCookie, KeySet};
+use crate::nts::AeadAlgorithm;
+use crate::packet::{AesSivCmac256, AesSivCmac512, Cipher};
+use crate::source::{
+    NtpSource, NtpSourceActionIterator, NtpSourceSnapshot, ProtocolVersion, SourceNtsData,
+};
+use crate::system::NtpSourceInfo;
+use crate::{ClockId, SourceConfig, SourceController};
+
+/// AEAD cipher of the IANA id `alg` (15 = AES-SIV-CMAC-256, 17 = AES-SIV-CMAC-512) from raw key bytes.
+pub fn cipher_from_key(alg: u16, key: &[u8]) -> Option<Box<dyn Cipher>> {
+    match alg {
+        15 => AesSivCmac256::try_from(key).ok().map(|c| Box::new(c) as Box<dyn Cipher>),
+        17 => AesSivCmac512::try_from(key.iter().copied())
+            .ok()
+            .map(|c| Box::new(c) as Box<dyn Cipher>),
+        _ => None,
+    }
+}
+
+/// What a finished key exchange hands to the source (fields are `pub(crate)`).
+pub fn make_nts_data(cookies: Vec<Vec<u8>>, c2s: Box<dyn Cipher>, s2c: Box<dyn Cipher>) -> Box<SourceNtsData> {
+    let mut stash = CookieStash::default();
+    for c in cookies {
+        stash.store(c);
+    }
+    Box::new(SourceNtsData { cookies: stash, c2s, s2c })
+}
+
+/// The server-side view of a session (what a cookie encodes).
+pub fn decoded_cookie(alg: u16, s2c: Box<dyn Cipher>, c2s: Box<dyn Cipher>) -> DecodedServerCookie {
+    DecodedServerCookie {
+        algorithm: AeadAlgorithm::from(alg),
+        s2c,
+        c2s,
+    }
+}
+
+pub fn keyset_encode_cookie(ks: &KeySet, c: &DecodedServerCookie) -> Vec<u8> {
+    ks.encode_cookie(c)
+}
+
+/// (algorithm id, s2c key, c2s key) of a cookie the key set can open.
+pub fn keyset_decode_cookie(ks: &KeySet, cookie: &[u8]) -> Option<(u16, Vec<u8>, Vec<u8>)> {
+    ks.decode_cookie(cookie).ok().map(|d| {
+        (
+            u16::from(d.algorithm),
+            d.s2c.key_bytes().to_vec(),
+            d.c2s.key_bytes().to_vec(),
+        )
+    })
+}
+
+/// `NtpSource::new` with caller-owned shared state instead of an `NtpManager`.
+pub fn new_source<C: SourceController>(
+    addr: SocketAddr,
+    config: SourceConfig,
+    version: ProtocolVersion,
+    controller: C,
+    nts: Option<Box<SourceNtsData>>,
+    id: ClockId,
+    ip_list: Vec<IpAddr>,
+    server_id: crate::v5::ServerId,
+    local_stratum: u8,
+    snapshots: Arc<Mutex<HashMap<ClockId, NtpSourceSnapshot>>>,
+) -> (NtpSource<C>, NtpSourceActionIterator) {
+    let info = NtpSourceInfo {
+        ip_list: ip_list.into(),
+        server_id,
+        local_stratum,
+    };
+    NtpSource::new(addr, config, version, controller, nts, id, Arc::new(RwLock::new(info)), snapshots)
+}
+
+pub fn refid_bytes(r: ReferenceId) -> [u8; 4] {
+    r.to_bytes()
+}
+pub fn refid_from_bytes(b: [u8; 4]) -> ReferenceId {
+    ReferenceId::from_bytes(b)
+}
+
+/// The crate-private cookie ring buffer, operation by operation.
+pub struct Stash(CookieStash);
+impl Stash {
+    pub fn new() -> Stash {
+        Stash(CookieStash::default())
+    }
+    pub fn store(&mut self, c: Vec<u8>) {
+        self.0.store(c)
+    }
+    pub fn get(&mut self) -> Option<Vec<u8>> {
+        self.0.get()
+    }
+    pub fn gap(&self) -> u8 {
+        self.0.gap()
+    }
+    pub fn len(&self) -> usize {
+        self.0.len()
+    }
+    pub fn is_empty(&self) -> bool {
+        self.0.is_empty()
+    }
+}
